@@ -868,12 +868,15 @@ def _env_params():
                 for pattern in ("all", "along"):
                     if shape in ((3, 3), (4, 3)) and pattern == "all":
                         continue
-                    if shape == (4, 3) and opt not in ("mps", "dense"):
+                    if shape == (4, 3) and opt not in ("mps", "dense", "mps-eq1", "dense-eq1"):
                         continue
                     q = shape in ((3, 2), (2, 3)) and pattern == "all" and opt in ("mps", "full-bond", "dense")
                     if opt.endswith("eq1") and pattern == "all":
                         continue
                     if opt.endswith("eq1") and shape in ((3, 2), (2, 3)) and side in ("xmin", "ymax"):
+                        q = True
+                    if opt.endswith("eq1") and shape == (4, 3) and side in ("xmin", "xmax"):
+                        # exponent accumulated over three or more steps
                         q = True
                     out.append({"shape": shape, "side": side, "opt": opt, "pattern": pattern, "_tiers": _Q if q else _T})
     return out
